@@ -50,6 +50,7 @@ EARLY = {"aws_lc_rs::digest::Context::new", "aws_lc_rs::digest::Context::finish"
          "ed25519_dalek::hazmat::raw_sign_byupdate", "key::HasKey::decode", "paseto_core::key::HasKey::decode"}
 
 REASONS.update({
+    "argon2-pcost": "argon2 0.5.3 params.rs: `if m_cost < p_cost * 8` precedes the MAX_P_COST check; the multiplication overflows u32 for p_cost >= 2^29",
     "lc-outlen": "aws-lc-rs digest::Context::finish / hmac::Context::sign return exactly the algorithm's output length (SHA-384: 48 bytes); the algorithm is a static named at the construction site",
     "ed-decompress": "ed25519_dalek::VerifyingKey can only be built by from_bytes, which decompresses the same 32 bytes; as_bytes() returns those bytes, so decompress() of them is Some",
     "sodium-finalize": "libsodium-rs crypto_generichash::State::finalize returns a Vec of the output_len given to State::new",
@@ -117,6 +118,13 @@ def early(ai, st, bi, ce, args, atys, dty, key, L):
 def contract(ai, st, bi, ce, args, atys, dty, key, L):
     p = ce["path"]
     full = short(ce.get("full", ""))
+    if p == "argon2::params::ParamsBuilder::p_cost" and len(args) == 2:
+        # argon2 0.5.3 Params::new evaluates `p_cost * 8` (u32) BEFORE it range-checks p_cost: 2^29 and above overflow, which
+        # panics in overflow-checked builds (confirmed: findings/demo d10)
+        ok = is_lin(args[1]) and ai.iv(st, args[1])[1] < 2 ** 29
+        ai.site(bi, "call", p, ok, "lane count reaching argon2::ParamsBuilder::p_cost is not bounded below 2^29 (argon2 multiplies it by 8 before its own range check): "
+                + (str(ai.iv(st, args[1])) if is_lin(args[1]) else "unknown"))
+        return NotImplemented
     if p.endswith(("::to_public_key_der", "::to_pkcs1_der")) and ce.get("crate") in ("spki", "pkcs1"):
         return ("o", 0, None, TRUE)
     if p == "digest::mac::Mac::new_from_slice":
